@@ -28,6 +28,7 @@ Operations (answers about the CHUNK-built twin unless said otherwise):
     cdsseq   (D / coding T) extract_sequence()
     prot     (D / coding T) translate()   (default table, strict)
     kframes  (D / coding T) chunk_relative_frames
+    kwcodons (D / coding T) scan_chunk_relative_codon_locations(lo, hi); the line carries `<lo> <hi>` after the OBJ
 """
 from harness import shims
 shims.install()
@@ -216,6 +217,10 @@ def show_locs(locs):
 
 def impl_chunk_op(line):
     op, _, key = line.partition(" ")
+    win = None
+    if op == "kwcodons":
+        key, lo, hi = key.rsplit(" ", 2)
+        win = (int(lo), int(hi))
     d, a, b, err = _twins(key)
     if err is not None:
         return err
@@ -254,6 +259,8 @@ def impl_chunk_op(line):
             return f"ok {n} " + show_locs(c.chromosome_codon_locations)
         if op == "kcodons":
             return "ok " + show_locs(c.chunk_relative_codon_locations)
+        if op == "kwcodons":
+            return "ok " + show_locs(c.scan_chunk_relative_codon_locations(win[0], win[1]))
         if op == "cdsseq":
             return "ok s:" + str(c.extract_sequence())
         if op == "prot":
